@@ -24,6 +24,7 @@ ASSUMPTIONS = [
 
 def knobs(rng):
     return Knobs(
+        p_datadiv=rng.choice([0.0, 0.0, 0.1]),
         p_config=rng.choice([0, 0, 0.3]),
         p_window=rng.choice([0.0, 0.0, 0.2]),
         p_call=rng.choice([0.0, 0.25, 0.4]),
